@@ -993,3 +993,127 @@ pub fn build_api() -> (ApiDescription<Ctx>, Ctx, BTreeMap<String, OpInfo>) {
     let entered = ops.keys().map(|o| (o.clone(), Arc::new(AtomicU64::new(0)))).collect();
     (api, Ctx { entered }, ops)
 }
+
+// ------------------------------------------------------------ self-test
+// `--mode selftest`: endpoints whose document does NOT tell the truth (their
+// JsonSchema impls are written by hand to lie).  Never part of ./check; used
+// to see that the judge reports a violation for each kind of lie.
+
+fn obj_schema(props: &[(&str, &str)], required: &[&str]) -> schemars::schema::Schema {
+    let mut o = schemars::schema::SchemaObject::default();
+    o.instance_type = Some(schemars::schema::InstanceType::Object.into());
+    let ov = o.object();
+    for (k, ty) in props {
+        let s: schemars::schema::Schema = serde_json::from_value(serde_json::json!({"type": ty})).unwrap();
+        ov.properties.insert(k.to_string(), s);
+    }
+    for k in required {
+        ov.required.insert(k.to_string());
+    }
+    o.into()
+}
+
+/// serde requires `z`; the schema says it is optional
+#[derive(Deserialize)]
+pub struct LieHiddenRequired {
+    pub z: String,
+}
+impl JsonSchema for LieHiddenRequired {
+    fn schema_name() -> String {
+        "LieHiddenRequired".into()
+    }
+    fn json_schema(_: &mut schemars::gen::SchemaGenerator) -> schemars::schema::Schema {
+        obj_schema(&[("z", "string")], &[])
+    }
+}
+/// serde defaults `y`; the schema says it is required
+#[derive(Deserialize)]
+pub struct LieFalseRequired {
+    #[serde(default)]
+    pub y: String,
+}
+impl JsonSchema for LieFalseRequired {
+    fn schema_name() -> String {
+        "LieFalseRequired".into()
+    }
+    fn json_schema(_: &mut schemars::gen::SchemaGenerator) -> schemars::schema::Schema {
+        obj_schema(&[("y", "string")], &["y"])
+    }
+}
+/// serialises {"b": 1}; the schema says {a: string} is required
+#[derive(Serialize)]
+pub struct LieBody {
+    pub b: u8,
+}
+impl JsonSchema for LieBody {
+    fn schema_name() -> String {
+        "LieBody".into()
+    }
+    fn json_schema(_: &mut schemars::gen::SchemaGenerator) -> schemars::schema::Schema {
+        obj_schema(&[("a", "string")], &["a"])
+    }
+}
+async fn lie_hidden(rqctx: RequestContext<Ctx>, _q: Query<LieHiddenRequired>) -> HR<HttpResponseOk<u32>> {
+    let _ = enter(&rqctx);
+    Ok(HttpResponseOk(1))
+}
+async fn lie_false(rqctx: RequestContext<Ctx>, _q: Query<LieFalseRequired>) -> HR<HttpResponseOk<u32>> {
+    let _ = enter(&rqctx);
+    Ok(HttpResponseOk(1))
+}
+async fn lie_body(rqctx: RequestContext<Ctx>) -> HR<HttpResponseOk<LieBody>> {
+    let _ = enter(&rqctx);
+    Ok(HttpResponseOk(LieBody { b: 1 }))
+}
+/// a hand-rolled response behind a typed signature is impossible; a typed
+/// error whose body does not fit its schema is not
+#[derive(Debug, Serialize)]
+pub struct LieErr {
+    pub n: u8,
+}
+impl JsonSchema for LieErr {
+    fn schema_name() -> String {
+        "LieErr".into()
+    }
+    fn json_schema(_: &mut schemars::gen::SchemaGenerator) -> schemars::schema::Schema {
+        obj_schema(&[("n", "string")], &["n"])
+    }
+}
+impl std::fmt::Display for LieErr {
+    fn fmt(&self, f: &mut std::fmt::Formatter<'_>) -> std::fmt::Result {
+        f.write_str("lie")
+    }
+}
+impl From<HttpError> for LieErr {
+    fn from(_: HttpError) -> Self {
+        LieErr { n: 1 }
+    }
+}
+impl HttpResponseError for LieErr {
+    fn status_code(&self) -> ErrorStatusCode {
+        ErrorStatusCode::BAD_REQUEST
+    }
+}
+async fn lie_err(rqctx: RequestContext<Ctx>) -> Result<HttpResponseOk<u32>, LieErr> {
+    let _ = enter(&rqctx);
+    Err(LieErr { n: 1 })
+}
+
+pub fn build_api_lies() -> (ApiDescription<Ctx>, Ctx, BTreeMap<String, OpInfo>) {
+    let mut api = ApiDescription::new();
+    let mut ops: BTreeMap<String, OpInfo> = BTreeMap::new();
+    macro_rules! reg {
+        ($op:expr, $h:expr, $path:expr, $info:expr) => {{
+            let op: String = $op.to_string();
+            api.register(ApiEndpoint::new(op.clone(), $h, Method::GET, JSON, $path, ApiEndpointVersions::All))
+                .expect("register");
+            ops.insert(op, $info);
+        }};
+    }
+    reg!("lie_hidden", lie_hidden, "/lie/hidden", info(OK_J).q(spec(&[lf("z", ST_STR, REQ, None)])));
+    reg!("lie_false", lie_false, "/lie/false", info(OK_J).q(spec(&[lf("y", ST_STR, DEF_STR, None)])));
+    reg!("lie_body", lie_body, "/lie/body", info(OK_J));
+    reg!("lie_err", lie_err, "/lie/err", info(OK_J).ce());
+    let entered = ops.keys().map(|o| (o.clone(), Arc::new(AtomicU64::new(0)))).collect();
+    (api, Ctx { entered }, ops)
+}
